@@ -139,6 +139,33 @@ def t_fixed_point(name, D, N, order, ustar):
     return e < 1e-10, f"{name} D={D} N={N} order={order}: constant state {ustar} moved by {e:.2e} in 3 steps"
 
 
+def t_fixed_point_reaction(which, D, N, order):
+    """non-trivial constant equilibria of reaction steppers with NON-default parameters, computed from the documented equations:
+    Swift-Hohenberg u_t = r u - (k + Lap)^2 u + u^2 - u^3 with k != 1: (r - k^2) u + u^2 - u^3 = 0;
+    Gray-Scott u_t = -u v^2 + f (1 - u), v_t = u v^2 - (f + k) v: (u, v) = (0.5, 0.2) for f = 0.04, k = 0.06, (0.7179.., 0.1254..) for f = 0.04, k = 0.05"""
+    ex, jnp = _ex()
+    R = ex.stepper.reaction
+    L, dt = 3.0, 0.1
+    if which.startswith("swift_hohenberg"):
+        r, k = (0.7, 0.8) if which.endswith("a") else (0.9, 1.2)
+        s = R.SwiftHohenberg(D, L, N, dt, reactivity=r, critical_number=k, order=order)
+        us = [(1 + np.sqrt(1 + 4 * (r - k * k))) / 2] if 1 + 4 * (r - k * k) >= 0 else [0.0]
+        u = jnp.ones((1,) + (N,) * D) * us[0]
+    else:
+        f, k = (0.04, 0.06) if which.endswith("a") else (0.04, 0.05)
+        # v (f + k) = u v^2 -> u v = f + k;  f (1 - u) = u v^2 = (f + k) v -> u = 1 - (f + k) v / f;  v from the quadratic
+        a, b, c = (f + k) / f, -1.0, (f + k)
+        v = (-b - np.sqrt(b * b - 4 * a * c)) / (2 * a) if which.endswith("b") else 0.2
+        uu = (f + k) / v
+        s = R.GrayScott(D, L, N, dt, feed_rate=f, kill_rate=k, order=order)
+        u = jnp.stack([jnp.ones((N,) * D) * uu, jnp.ones((N,) * D) * v])
+    out = u
+    for _ in range(3):
+        out = s(out)
+    e = float(np.max(np.abs(np.asarray(out) - np.asarray(u))))
+    return e < 1e-10, f"{which} D={D} N={N} order={order}: constant equilibrium {[float(x) for x in np.asarray(u).reshape(u.shape[0], -1)[:, 0]]} moved by {e:.2e} in 3 steps"
+
+
 def t_fixed_point_poly(D, N, order, ustar):
     """generic polynomial reaction with a non-zero constant term: D a0 u + c0 + c1 u + c2 u^2 = 0 at the constant state ustar"""
     ex, jnp = _ex()
@@ -154,7 +181,7 @@ def t_fixed_point_poly(D, N, order, ustar):
     return e < 1e-10, f"GeneralPolynomialStepper D={D} N={N} order={order} c0={c0:.3f}: constant equilibrium {ustar} moved by {e:.2e} in 3 steps"
 
 
-TESTS = dict(mean=t_mean, work=t_work, fixed_point=t_fixed_point, fixed_point_poly=t_fixed_point_poly)
+TESTS = dict(mean=t_mean, work=t_work, fixed_point=t_fixed_point, fixed_point_poly=t_fixed_point_poly, fixed_point_reaction=t_fixed_point_reaction)
 
 
 def witness(ctx):
@@ -192,3 +219,7 @@ def witness(ctx):
                 ctx.check("fixed_point", dict(name=name, D=D, N=8, order=order, ustar=us))
     for order in (2, 4):
         ctx.check("fixed_point", dict(name="NavierStokesVorticity", D=2, N=8, order=order, ustar=0.6))
+    for j, which in enumerate(("swift_hohenberg_a", "swift_hohenberg_b", "gray_scott_a", "gray_scott_b")):
+        for D in ((1, 2) if not deep else (1, 2, 3)):
+            for order in ((1 + (ctx.seed + j + D) % 4,) if not deep else (1, 2, 3, 4)):
+                ctx.check("fixed_point_reaction", dict(which=which, D=D, N=8 if D < 3 else 6, order=order))
